@@ -124,7 +124,15 @@ func (e *Env) open() error {
 	case "mem":
 		e.Backend = s3mem.New(s3mem.WithTimeSource(e.Clock), s3mem.WithVersionSeed(e.Seed))
 	case "bolt":
-		db, err := bolt.Open(filepath.Join(e.Dir, "bolt.db"), 0600, &bolt.Options{Timeout: time.Second})
+		bopts := &bolt.Options{Timeout: time.Second}
+		if cfg.BoltMmap {
+			// the embedding application chooses the options of the *bolt.DB it
+			// hands to s3bolt.New; with a large initial mapping the file never
+			// has to be remapped, so a slice kept beyond its transaction reads
+			// reused pages instead of faulting
+			bopts.InitialMmapSize = 64 << 20
+		}
+		db, err := bolt.Open(filepath.Join(e.Dir, "bolt.db"), 0600, bopts)
 		if err != nil {
 			return err
 		}
